@@ -35,5 +35,16 @@ def run(ctx):
         ctx.assumptions.append("text-protocol converters are not yet covered in this check")
     # the lock engine under arbitrary core-subset commands: any panic / hang of the real engine
     engine_common.run_engine(ctx, ["C13:"], n_quick=300, n_thorough=20000)
+    # ... and under arbitrary FLAG WORDS (every bit of Flag / TimeoutFlag / ExpriedFlag incl. the subset the model excludes: less-lock-version,
+    # reverse-key, keep-alive, tree lock, from-aof; not the millisecond units and require-ack): sequences judged for panics and hangs only
+    exe = ctx.build_harness("server", only=engine_common.ENGINE_FILES)
+    if exe:
+        n = 400 if ctx.tier == "quick" else 20000
+        seeds = [ctx.seed] if ctx.tier == "quick" else [ctx.seed + i for i in range(4)]
+        for sd in seeds:
+            outdir = ctx.run_harness(exe, "enginewild", n if ctx.tier == "quick" else n // len(seeds), seed=sd, extra={"VERIF_OPS": "40"}, timeout=1500)
+            if outdir:
+                ctx.diff(outdir, "enginewild", classify=lambda op, impl: ("wild", hash(op) % 4096))
+                engine_common.read_monitor(ctx, outdir, "enginewild", ["C13:"])
     ctx.assumptions.append("only the modelled functions are covered by theorems (value-frame parser and operations, all 64-byte decoders); stream buffering, admin / subscribe / "
                            "CALL handlers and the TCP layer are reached by exploration only or not at all (see DESIGN.md C13)")
